@@ -51,7 +51,7 @@ def _mem_total_gb():
 # entries of units marked "heavy" (several GB of solver memory each) never run more than HEAVY_SLOTS at a time, so that
 # 16 parallel jobs cannot exhaust the machine (an exhausted machine shows up as obligations with status ERROR: exit 2)
 import threading
-HEAVY_SLOTS = max(2, _mem_total_gb() // 8)
+HEAVY_SLOTS = max(2, _mem_total_gb() // 12)        # a heavy entry is cbmc (about 5 GB) plus kissat (about 4 GB)
 HEAVY = threading.BoundedSemaphore(HEAVY_SLOTS)
 
 
@@ -59,6 +59,10 @@ def run(cmd, cwd=None, timeout=600, mem_kb=MEM_KB, env=None):
     t0 = time.time()
     pre = "ulimit -v %d; " % mem_kb
     try:
+        # temporary files of cbmc (the CNF handed to the external SAT solver: gigabytes for the large entries) go to the
+        # work directory, which is removed at the end of the run - also when a solver was killed and left its file behind
+        if env is None and cwd:
+            env = dict(os.environ, TMPDIR=cwd)
         p = subprocess.run(["bash", "-c", pre + "exec " + " ".join(shlex.quote(c) for c in cmd)],
                            cwd=cwd, stdin=subprocess.DEVNULL, stdout=subprocess.PIPE, stderr=subprocess.PIPE,
                            timeout=timeout, env=env)
